@@ -40,6 +40,7 @@ type ECall struct {
 type EQuant struct {
 	Forall bool
 	Var    string
+	Typ    string // "" = int (untyped references included); "string", "*T", "pkg.T": all values of that type
 	Lo, Hi Expr // nil when unbounded
 	Body   Expr
 }
@@ -267,6 +268,19 @@ func (ps *parser) unary() (Expr, error) {
 				return nil, err
 			}
 			q.Lo, q.Hi = lo, hi
+		} else if !ps.isOp("::") {
+			// "forall k string :: ..." / "forall c *controller :: ...": the
+			// bound variable ranges over all values of that type
+			for !ps.isOp("::") && ps.peek().kind != "eof" {
+				t := ps.next()
+				if t.kind != "ident" && !(t.kind == "op" && (t.text == "*" || t.text == ".")) {
+					return nil, fmt.Errorf("type expected after quantifier variable at %d in %q", t.pos, ps.src)
+				}
+				q.Typ += t.text
+			}
+			if q.Typ == "int" {
+				q.Typ = ""
+			}
 		}
 		if err := ps.expect("::"); err != nil {
 			return nil, err
@@ -469,6 +483,7 @@ type FuncContract struct {
 	Overflow  bool     // emit overflow obligations for signed arithmetic too
 	Wraps     bool     // unsigned arithmetic wraps intentionally; no underflow obligations
 	Fresh     []string // result names declared fresh (allocated by the call)
+	Allocates []string // struct types whose new objects the call initialises; "*" = objects of any kind
 	IsIface   bool
 	IsExtern  bool
 	Params    []string // for iface/extern contracts written with explicit parameter names
@@ -498,6 +513,7 @@ func (fc *FuncContract) merge(o *FuncContract) {
 	}
 	fc.MayPanic = fc.MayPanic || o.MayPanic
 	fc.Mutates = fc.Mutates || o.Mutates
+	fc.Allocates = append(fc.Allocates, o.Allocates...)
 	fc.Opaque = fc.Opaque || o.Opaque
 	fc.Pure = fc.Pure || o.Pure
 	fc.Deterministic = fc.Deterministic || o.Deterministic
@@ -572,7 +588,7 @@ var clauseKeywords = map[string]bool{
 	"spec": true, "pred": true, "func": true, "iface": true, "extern": true, "lemma": true,
 	"requires": true, "ensures": true, "modifies": true, "loop": true, "maypanic": true, "mutates": true,
 	"opaque": true, "pure": true, "assume": true, "noinline": true, "overflow": true,
-	"wraps": true, "fresh": true, "at": true, "induction": true, "params": true,
+	"wraps": true, "fresh": true, "allocates": true, "at": true, "induction": true, "params": true,
 	"ghost": true, "chaninv": true, "ufunc": true, "immutable": true, "inline": true, "uses": true, "postuses": true, "private": true, "deterministic": true, "pkginv": true,
 }
 
@@ -837,6 +853,13 @@ func parseContractLines(pkg string, lines []string) (*PkgContracts, error) {
 		case "fresh":
 			for _, n := range strings.Split(rest, ",") {
 				cur.Fresh = append(cur.Fresh, strings.TrimSpace(n))
+			}
+		case "allocates":
+			if strings.TrimSpace(rest) == "" {
+				cur.Allocates = append(cur.Allocates, "*")
+			}
+			for _, n := range strings.FieldsFunc(rest, func(r rune) bool { return r == ',' || r == ' ' }) {
+				cur.Allocates = append(cur.Allocates, n)
 			}
 		case "params":
 			for _, n := range strings.Split(rest, ",") {
